@@ -308,6 +308,20 @@ func runLBAcct(x *X) {
 		}
 		check(fmt.Sprintf("after-step-%d", i))
 	}
+	// the books are kept for as long as requests are answered: Stop() ends probing and pools, the
+	// handler keeps serving what still arrives (a shutdown whose drain has not finished yet)
+	if !x.dead && c.Intn(3, "requests-after-stop") == 0 {
+		x.Do("stop", func() { h.lb.Stop() }, onErr)
+		k := 1 + c.Intn(4, "after-stop-n")
+		for j := 0; j < k && !x.dead; j++ {
+			class := []string{"ok", "s500", "s404", "unreach"}[c.Intn(4, "after-stop-class")]
+			cl := clients[c.Intn(len(clients), "client")]
+			x.Do("req", func() { runClass(class, cl) }, onErr)
+			steps = append(steps, "after-stop:"+class)
+		}
+		check("after-stop")
+		x.Probe("requests-after-stop")
+	}
 	x.Sample["steps"] = steps
 	if left := s.Teardown(); left > 0 {
 		x.Probe("teardown-left")
